@@ -285,9 +285,11 @@ func (r *Range) Split(chunkSize uint64) ([]*Range, error) {
 		}
 
 		currentStart = currentEnd
-		currentEnd = currentStart + chunkSize
-		if currentEnd > endBlock {
+		// compare distances: currentStart + chunkSize may wrap around past the maximum uint64
+		if endBlock-currentStart <= chunkSize {
 			currentEnd = endBlock
+		} else {
+			currentEnd = currentStart + chunkSize
 		}
 	}
 
